@@ -793,7 +793,12 @@ def r_accumulate(c):
     pv = c.get("pre_values") or {}
     if c.get("pre"):
         for n in (["a"] if mode == "backward" else ["q0", "p1"]):
-            prog[n].grad = torch.tensor(np.asarray(arr(pv[n]), dtype=float), dtype=prog[n].dtype).reshape(prog[n].shape) if n in pv else torch.full_like(prog[n], 7.0)
+            g0 = torch.tensor(np.asarray(arr(pv[n]), dtype=float), dtype=prog[n].dtype).reshape(prog[n].shape) if n in pv else torch.full_like(prog[n], 7.0)
+            if c.get("pre_strided") and n in ("a", "q0") and g0.dim() == 1 and g0.numel() >= 2:
+                base = torch.zeros(2 * g0.numel(), dtype=g0.dtype)
+                base[::2] = g0
+                g0 = base[::2]  # same values, non-contiguous layout
+            prog[n].grad = g0
     for n in (["c"] if mode == "backward" else ["z"]):
         prog[n].grad = torch.tensor(np.asarray(arr(pv[n]), dtype=float), dtype=prog[n].dtype).reshape(prog[n].shape) if n in pv else torch.full_like(prog[n], 3.0)
     agg = Agg(bool(c.get("cached")))
